@@ -1976,9 +1976,9 @@ fn depth_for(tier: Tier, c: &Cfg) -> usize {
             (_, true) => 6,
             (_, false) => 7,
         },
-        (Tier::Thorough, Phase::Mix) => match c.slots {
-            1 => FIX,
-            2 => 6,
+        (Tier::Thorough, Phase::Mix) => match (c.slots, c.k) {
+            (1, _) => FIX,
+            (2, 6) => 6,
             _ => 5,
         },
         (Tier::Thorough, Phase::Tx) => match (c.slots, c.eth, c.k) {
